@@ -36,14 +36,16 @@ ListTable(allowR, star, e) ==
   [n \in Repos \cup {Star} |-> [k \in Kinds |->
      IF n = Star THEN (IF k = "List" THEN star ELSE e)
      ELSE IF k = "Read" THEN (IF n \in allowR THEN PolOk ELSE e) ELSE IF k = "List" THEN e ELSE PolOk]]
+\* (the reduced enumeration takes the populated subsets of even size; MC covers all of them)
+QuickPops == IF GenFull THEN SUBSET Repos ELSE {p \in SUBSET Repos : Cardinality(p) % 2 = 0}
 CheckerListCases ==
   UNION {{Case("checker", pop, ListTable(allowR, star, CHOOSE e \in ErrIds : TRUE), {}, NoScope, ListSeq) :
              star \in (IF GenFull \/ pop = Repos THEN {PolOk, CHOOSE e \in ErrIds : TRUE} ELSE {PolOk})} :
-           pop \in SUBSET Repos, allowR \in SUBSET Repos}
+           pop \in QuickPops, allowR \in SUBSET Repos}
 SelectListCases ==
   UNION {{Case("select", pop, SelPol(allow, Repos), allow, NoScope, ListSeq) :
              allow \in {a \in SUBSET (Repos \cup {Star}) : Star \in a => (GenFull \/ pop = Repos)}} :
-           pop \in SUBSET Repos}
+           pop \in QuickPops}
 \* failing listings: all repositories populated, every Read-allowed subset, failure after 0..3
 \* items, the name delivered with the error being the next repository (or none)
 Nth(k) == CHOOSE x \in Repos : Pos.r[x] = 2 * k
